@@ -347,11 +347,46 @@ func Lineage(h *History, results []Result, i int) []Op {
 		for j := sg.from; j < sg.upto && j < len(h.Ops); j++ {
 			op := h.Ops[j]
 			if op.Set == sg.set && IsDef(op.Kind) && j < len(results) && results[j].Err == "" && !results[j].Nil && results[j].Panic == "" {
+				if op.Via == "" {
+					op.Via = RootVia(h, results, op.Set)
+				}
 				out = append(out, op)
 			}
 		}
 	}
 	return out
+}
+
+// RootVia returns the name under which the root handle of a set is found in a fresh set: "" for the original
+// set and for clones taken from a root handle, the member name for a clone taken from a member handle (the
+// clone's root handle is then the clone of that member, and Parse on it gives that member the top-level body).
+func RootVia(h *History, results []Result, set int) string {
+	type origin struct {
+		parent int
+		via    string
+	}
+	origins := map[int]origin{}
+	next := 1
+	for j, op := range h.Ops {
+		if op.Kind == "clone" && j < len(results) && !results[j].Nil {
+			origins[next] = origin{op.Set, op.Via}
+			next++
+		}
+	}
+	for s := set; s > 0; {
+		o, ok := origins[s]
+		if !ok {
+			return ""
+		}
+		if o.via != "" {
+			if o.via == h.RootName {
+				return ""
+			}
+			return o.via
+		}
+		s = o.parent
+	}
+	return ""
 }
 
 // Fresh builds a fresh set from the lineage's definition ops (clone points are not replayed: a clone is
@@ -422,6 +457,9 @@ func NoDirect(name string) bool {
 	return ok
 }
 
+// cspBodies: inline event handlers and javascript: URLs in the static template text.
+var cspBodies = []string{`<span onclick="go()">{{.V}}</span>`, `<a href="javascript:void(0)">{{.V}}</a>`, `<a href="javascript:void(0)" onclick="go()">x</a>`, `<body onload="init()"><p>{{.V}}</p></body>`}
+
 // runtime failures after partial output (analysis succeeds): typed-only context fed a string
 var runtimeBadBodies = []string{
 	`<p>partial</p><script>{{.V}}</script>`,
@@ -446,6 +484,14 @@ var badBodies = map[string][]string{
 	"empty-callee":       {`<p>{{template "empty" .}}</p>`},
 	"indirect-recursion": {`{{define "ry"}}{{if .Next}}{{template "rz" .Next}}{{end}}3"{{end}}{{define "rz"}}{{template "ry" .}}{{end}}|||<select size="{{template "ry" .}}></select>`},
 	"recursion":          {`{{define "rec"}}{{if .Next}}<a href="{{template "rec" .Next}}{{end}}{{end}}|||{{template "rec" .}}`, `<a href="{{template "SELF" .}}`},
+	// a recursive helper that ends in another context than it starts in: the context of the recursive call cannot be
+	// computed (the call may or may not run)
+	"recursion-unbalanced": {`{{define "ru"}}{{.V}}{{if .Next}}{{template "ru" .Next}}{{end}}</script>{{end}}|||<script>{{template "ru" .}}`, `{{define "rv"}}{{if .Next}}{{template "rv" .Next}}{{end}}{{.V}}"></a>{{end}}|||<a href="{{template "rv" .}}`, `{{define "rw"}}{{if .C}}{{template "rw" .Next}}{{end}}{{.V}}</style>{{end}}|||<style>{{template "rw" .}}`, `{{define "rx"}}{{.V}}{{if .Next}}{{template "rx" .Next}}{{end}}"></iframe>{{end}}|||<iframe srcdoc="{{template "rx" .}}`},
+	// branches that open different elements one of which is a special element, followed by markup
+	"mixed-special": {`{{if .C}}<script{{else}}<div{{end}}>1<b>{{.V}}</b></script>`, `{{if .C}}<script>{{else}}<title>{{end}}x</title>{{.V}}</script>`, `{{if .C}}<style{{else}}<p{{end}}>a<i>x</i></style>`},
+	// a name inside a tag split by a template node, then an action in that tag or element
+	"name-split":         {`<a title{{if .C}} {{end}}href="{{.U}}">x</a>`, `<s{{if .C}}cript{{end}}>{{.V}}</script>`, `<b{{if .C}} {{end}}title="{{.V}}">x</b>`, `<textarea{{if .C}} r{{end}}ows="2">a<b>{{.V}}</textarea>`, `<link re{{if .C}}l{{end}}="stylesheet" rel="icon" href="{{.U}}">`},
+	"tag-syntax":         {`<script </script>{{.V}}</script>`, `<a title={{if .C}}x{{end}} alt="{{.V}}">y</a>`, `<b title{{if .C}}/{{end}}="{{.V}}">x</b>`},
 	"predefined-escaper": {`{{.V | html | print}}`, `<a title={{.V | html}}>`},
 	"js-template":        {"<script>var a = `x</script>", "<script>`${</script>"},
 	"enum-partial":       {`<a target="x{{.V}}">`},
@@ -466,12 +512,14 @@ var helperAttr = []string{`{{.V}}`, `x{{.V}}y`, `{{if .C}}{{.V}}{{end}}&amp;`}
 
 // unbalanced helpers: name -> body; they fail when executed on their own (non-text end context) but are valid
 // pieces of the callers below
-var unbalancedHelpers = map[string]string{"o0": `<a href="`, "o1": `<div title='`, "o2": `<textarea>`, "o3": `<p><b`, "c0": `">`}
+// (j0 is script text: on its own it is malformed HTML - "<b)" - and fails analysis for another reason than its end context)
+var unbalancedHelpers = map[string]string{"o0": `<a href="`, "o1": `<div title='`, "o2": `<textarea>`, "o3": `<p><b`, "c0": `">`, "j0": `if (a<b) { f("x") }`}
 var unbalancedCallers = []string{
 	`{{template "o0"}}/x">a</a>`, `{{template "o0"}}{{.U}}">b</a>`, `{{template "o0"}}/x">{{.V}}</a>{{template "o0"}}{{.U}}">`, `{{template "o0"}}/p?q={{.V}}">c</a>`,
 	`{{template "o1"}}{{.V}}'>x</div>`, `{{template "o1"}}static'>{{.V}}</div>`, `{{if .C}}{{template "o1"}}a'>{{else}}<div>{{end}}{{.V}}</div>`,
 	`{{template "o2"}}{{.V}}</textarea>`, `{{template "o2"}}</textarea>{{.V}}`,
 	`{{template "o3"}} title="{{.V}}">x</b></p>`, `{{template "o3"}}>{{.V}}</b></p>`,
+	`<script>{{template "j0"}}</script>`, `<script>var x = 1;{{template "j0"}}</script><p>{{.V}}</p>`,
 	`<a href="{{.U}}{{template "c0"}}x</a>`, `<a title="{{.V}}{{template "c0"}}{{.V}}</a>`, `{{template "o0"}}{{.U}}{{template "c0"}}{{.V}}</a>`,
 }
 
@@ -492,6 +540,7 @@ type Options struct {
 	NoRedefine   bool // definition ops only introduce fresh names (x1, x2)
 	AttrHelpers  bool // helpers may be written for attribute contexts (derived copies), each used in one context class only
 	Unbalanced   bool // helpers that end in another context than they start in, with callers that complete them
+	CSP          bool // sometimes a CSP-compatible set, and members with inline handlers / javascript: URLs
 	Markers      bool // untrusted data values carry the marker zQ<n>x at both ends (C02 location oracle)
 }
 
@@ -524,6 +573,10 @@ func Gen(t *rapid.T, o Options) *History {
 	g := &genState{t: t, o: o, h: &History{RootName: rapid.SampledFrom([]string{"root", "root", "main", "t.tmpl"}).Draw(t, "root")}, bad: map[string]string{}}
 	g.names = [][]string{{}}
 	g.nsets = 1
+	if o.CSP && g.n(0, 2, "csp") == 0 {
+		g.h.CSP = true
+		g.flagf("csp-compatible")
+	}
 	// --- definitions of the original set ---
 	var text strings.Builder
 	add := func(name, body string) {
@@ -575,6 +628,13 @@ func Gen(t *rapid.T, o Options) *History {
 	for i := 0; i < nm; i++ {
 		name := fmt.Sprintf("m%d", i)
 		switch k := g.n(0, 9, "mkind"); {
+		case k <= 2 && o.CSP && g.n(0, 3, "cspbody") == 0:
+			// fine in an ordinary set, an analysis failure (ErrCSPCompatibility) in a CSP-compatible one
+			add(name, `{{mark "`+name+`"}}`+g.pick("cspb", cspBodies))
+			if g.h.CSP {
+				g.bad[name] = "csp"
+				g.flagf("bad:csp")
+			}
 		case k <= 2:
 			add(name, g.pick("good", goodBodies))
 		case k <= 6:
